@@ -320,6 +320,19 @@ func (x *Exec) loopTargets(fr *Frame, li *loopInfo) (map[string]*loopMod, bool) 
 					}
 					continue
 				}
+				// typed atomics write exactly the receiver: treat like a store through that address
+				if cal := cc.StaticCallee(); cal != nil && strings.HasPrefix(fullFuncKey(cal), "sync/atomic.(*") && len(cc.Args) >= 1 {
+					k, t, roots, field, fresh, ok := storeRoot(cc.Args[0], li)
+					if k != "" {
+						m := get(k, t)
+						if !ok {
+							m.whole = true
+						} else if !fresh {
+							addRoots(m, roots, field)
+						}
+						continue
+					}
+				}
 				// other calls: whole-key effects from the callee analysis
 				tmpBlocks := map[*ssa.BasicBlock]bool{b: true}
 				_ = tmpBlocks
@@ -392,6 +405,9 @@ func (x *Exec) collectCallMods(cc *ssa.CallCommon, in ssa.Instruction, seen map[
 		cf = c2.Fn.(*ssa.Function)
 	}
 	if cf == nil {
+		if _, ok := x.pureFieldFunc(cc); ok {
+			return false
+		}
 		return true
 	}
 	key := fullFuncKey(cf)
